@@ -108,7 +108,12 @@ func vfC31Validator(rejectAll, echo bool) func(string) error {
 		if err != nil {
 			return errors.New("unparsable URL")
 		}
-		if rejectAll || strings.HasPrefix(strings.ToLower(u.Hostname()), "bad") {
+		// the verdict depends on the host, on the query and on the user info: a fetcher that shows
+		// the validator anything but the full URL it is about to request gets a wrong verdict
+		objectionable := strings.HasPrefix(strings.ToLower(u.Hostname()), "bad") ||
+			strings.Contains(u.RawQuery, "tenant=other") ||
+			(u.User != nil && u.User.Username() == "evil")
+		if rejectAll || objectionable {
 			if echo {
 				return fmt.Errorf("URL %s is not on the allow list", raw)
 			}
@@ -145,6 +150,7 @@ var vfC31Secrets = []struct{ marker, what string }{
 	{"SECRETPW", "userinfo"},
 	{"HOPSECRET", "redirect-target-query"},
 	{"HOPUSER", "redirect-target-userinfo"},
+	{"evil", "redirect-target-userinfo"},
 }
 
 func vfC31Leaks(x *venum.X, site string, err error) {
@@ -235,6 +241,7 @@ func TestVerif_C31(t *testing.T) {
 		}
 		status := statuses[x.Choose(len(statuses), "status")]
 		initialOK := x.Bool("initial-allowed") // false first: rejected
+		rejectBy := x.Pick("rejected-by", "host", "query", "userinfo") // which part of a rejected URL is objectionable
 		chain := x.Choose(eff+3, "chain-length")
 		hopOK := make([]bool, chain+1)
 		hopOK[0] = initialOK
@@ -245,10 +252,20 @@ func TestVerif_C31(t *testing.T) {
 			}
 			return fmt.Sprintf("bad%d.test", i)
 		}
-		urls[0] = "https://" + host(initialOK, 0) + "/obj?sig=SECRETSIG"
+		mkURL := func(ok bool, i int, user, query string) string {
+			switch {
+			case ok || rejectBy == "host":
+				return fmt.Sprintf("https://%s%s/obj?%s", user, host(ok, i), query)
+			case rejectBy == "query":
+				return fmt.Sprintf("https://%s%s/obj?%s&tenant=other", user, host(true, i), query)
+			default: // userinfo
+				return fmt.Sprintf("https://evil:HOPUSERPW@%s/obj?%s", host(true, i), query)
+			}
+		}
+		urls[0] = mkURL(initialOK, 0, "", "sig=SECRETSIG")
 		for i := 1; i <= chain; i++ {
 			hopOK[i] = !x.Bool(fmt.Sprintf("hop%d-rejected", i))
-			urls[i] = fmt.Sprintf("https://HOPUSER@%s/obj?tok=HOPSECRET%d", host(hopOK[i], i), i)
+			urls[i] = mkURL(hopOK[i], i, "HOPUSER@", fmt.Sprintf("tok=HOPSECRET%d", i))
 		}
 		index := map[string]int{}
 		for i, u := range urls {
@@ -277,7 +294,7 @@ func TestVerif_C31(t *testing.T) {
 				if u == urls[0] {
 					where = "initial"
 				}
-				x.Failf("C31:redirects:request-to-rejected-url:"+where, "MaxRedirects=%d chain=%d allowed=%v: the origin received a request for %s which the validator rejects; requests: %v", maxCfg, chain, hopOK, u, o.seen)
+				x.Failf("C31:redirects:request-to-rejected-url:"+where+":objectionable-"+rejectBy, "MaxRedirects=%d chain=%d allowed=%v: the origin received a request for %s which the validator rejects; requests: %v", maxCfg, chain, hopOK, u, o.seen)
 				break
 			}
 		}
@@ -296,7 +313,7 @@ func TestVerif_C31(t *testing.T) {
 		}
 		vfC31Leaks(x, "redirects", err)
 		vfC31CheckResult(x, "redirects", rb, err)
-		x.Outcome("max=%d chain=%d attempts=%d maxhops=%d %s", maxCfg, chain, len(hops), maxHops, vfC31ErrClass(err))
+		x.Outcome("max=%d by=%s chain=%d attempts=%d maxhops=%d %s", maxCfg, rejectBy, chain, len(hops), maxHops, vfC31ErrClass(err))
 	})
 
 	// ---- space 2: body caps -----------------------------------------------------
